@@ -45,6 +45,30 @@ def gen_config_for(rng, repo, select_all=False):
                 e["source"] = e["source"] or src
         cfg["codenames"][cn] = cfg_cn
     lines.append(f"clean {url}")
+    # package filters (C01/C09: "after the configured package filters") and ignore_errors paths (C02)
+    bins = sorted({p["name"] for cs in repo["codenames"].values() for cp in cs["components"].values()
+                   for pk in cp.get("binaries", {}).values() for p in pk})
+    srcs = sorted({s["name"] for cs in repo["codenames"].values() for cp in cs["components"].values()
+                   for s in (cp.get("sources") or [])} | {"src0", "src1", "src2"})
+    if rng.random() < 0.3:
+        kind = rng.choice(["include_source_name", "exclude_source_name", "include_binary_packages", "exclude_binary_packages",
+                           "exclude_binary_packages"])
+        poolnames = srcs + bins if "source" in kind else bins
+        if poolnames:
+            names = rng.sample(poolnames, min(len(poolnames), rng.randint(1, 3)))
+            cfg["filters"][kind] = names
+            lines.append(f"{kind} {url} {' '.join(names)}")
+    if rng.random() < 0.3:
+        dirs = sorted({p["filename"].rsplit("/", 1)[0] for cs in repo["codenames"].values() for cp in cs["components"].values()
+                       for pk in cp.get("binaries", {}).values() for p in pk} |
+                      {s["directory"] for cs in repo["codenames"].values() for cp in cs["components"].values()
+                       for s in (cp.get("sources") or [])})
+        if dirs:
+            ign = rng.sample(dirs, min(len(dirs), rng.randint(1, 2)))
+            if rng.random() < 0.3:
+                ign = [ign[0].rsplit("/", 1)[0]]  # a whole letter directory
+            cfg["ignore_errors"] = ign
+            lines.append(f"ignore_errors {url} {' '.join(ign)}")
     return lines, cfg
 
 
@@ -84,9 +108,12 @@ def byhash_aliases(store, url):
     return [k for k, v in store.items() if k.startswith(parent + "/by-hash/") and v[0] == data]
 
 
-def referenced_pool(repo, cfg):
-    """pool paths referenced by selected Packages/Sources indices"""
+def referenced_pool(repo, cfg, ignored_only=False):
+    """pool paths referenced by selected Packages/Sources indices after the package filters; by default those NOT under an
+    ignore_errors path (= the files whose failure must fail the run), with ignored_only=True exactly those under one"""
     out = {}
+    flt = cfg.get("filters", {})
+    ign = cfg.get("ignore_errors", [])
     for cn, cs in repo["codenames"].items():
         cfg_cn = cfg["codenames"].get(cn, {})
         for comp, cp in cs["components"].items():
@@ -96,10 +123,19 @@ def referenced_pool(repo, cfg):
             for arch, pkgs in cp.get("binaries", {}).items():
                 if c["arches"] and (arch in c["arches"] or arch == "all"):
                     for p in pkgs:
+                        src = p["source"].split()[0] if p.get("source") else p["name"]
+                        if not fsckmod.package_allowed(flt, src, p["name"]):
+                            continue
+                        if fsckmod.ignored(ign, p["filename"]) != ignored_only:
+                            continue
                         out[p["filename"]] = p["size"]
             if c["source"] and cp.get("sources") is not None:
                 for s in cp["sources"]:
+                    if not fsckmod.package_allowed(flt, s["name"]):
+                        continue
                     for fn, size in s["files"]:
+                        if fsckmod.ignored(ign, f"{s['directory']}/{fn}") != ignored_only:
+                            continue
                         out[f"{s['directory']}/{fn}"] = size
     return out
 
@@ -163,6 +199,16 @@ def gen_plan(rng, cls, repo, cfg, store, skip_pool=()):
             for c2 in (sorted(cfg["codenames"]) if fault == "all404" else [cn]):
                 for n in fsckmod.RELEASE_NAMES:
                     plan.append([f"dists/{c2}/{n}", "*", "404" if fault == "all404" else fault])
+        return plan, info
+    if cls == "persistent-ignored":
+        # a pool file under an ignore_errors path fails for ever, in any way: must not fail the run (C02)
+        ipool = {p: sz for p, sz in referenced_pool(repo, cfg, ignored_only=True).items() if p not in skip_pool}
+        if ipool:
+            p = rng.choice(sorted(ipool))
+            fault = rng.choice(FAULTS)
+            info["target"] = p
+            info["fault"] = fault
+            plan.append([p, "*", fault])
         return plan, info
     if cls == "persistent-optional":
         # one release flavour disappears (404) while another stays
